@@ -494,8 +494,12 @@ def clone_unit(u):
 
 def write_evidence(path, prop, tier, ctx, units, mod, t00, violations=0, known=(), undecided=()):
     proved_units = [u for u in units if not u.bounded]
-    obls = [o for u in proved_units for o in u.obls if o['cls'] not in u.nonprop_cls] + \
-           [o for u in proved_units if getattr(u, 'residual', None) for o in u.residual.obls if o['cls'] not in u.nonprop_cls and False]
+    # a unit carrying a listed known finding contributes its RESIDUAL obligations (the same unit with the listed input
+    # class excluded), which are what this run discharged; the finding itself is reported under known_findings_reported
+    def counted(u):
+        src = u.residual.obls if (u.status == 'known-finding' and getattr(u, 'residual', None)) else u.obls
+        return [o for o in src if o['cls'] not in u.nonprop_cls]
+    obls = [o for u in proved_units for o in counted(u)]
     discharged = [o for o in obls if o['status'] == 'proved']
     by_backend = {}
     for u in units:
